@@ -181,6 +181,16 @@ def run(prog, tier, extra=None):
             continue
         seen_callers.add(e.src)
         res.instance(R2)
+        # an allowed caller other than the validating entry point must itself put each transaction through Transaction::validate
+        # (in its body or a closure of it: the filter of add_block_transactions_back) - a gate instance of R1 then covers the verdict
+        owner = e.src[: -len("::{closure#0}")] if e.src.endswith("::{closure#0}") else e.src
+        if owner in callers_ok and not owner.endswith("add_transaction_if_validates"):
+            TXV = CORE + "consensus::transaction::Transaction::validate"
+            validates = any((t2.get("res") or t2.get("callee")) == TXV for p2, b2 in prog.bodies.items()
+                            if (p2 == owner or p2.startswith(owner + "::{closure")) and not b2.is_promoted for _, t2 in b2.calls())
+            if not validates:
+                res.add(Finding(R2, "C01.who-may-insert|unvalidated|%s" % owner, "%s hands transactions to Mempool::add_transaction without putting them through "
+                                "Transaction::validate: a transaction that is no longer valid against the ledger enters the pool" % consumer_name(owner), cg.bodies[e.src].loc(e.bb)))
         if not any(e.src in (c, c + "::{closure#0}") for c in callers_ok):
             res.add(Finding(R2, "C01.who-may-insert|caller|%s" % e.src,
                             "%s calls Mempool::add_transaction without going through add_transaction_if_validates" % consumer_name(e.src),
